@@ -35,7 +35,7 @@ def run(engine="verus", only=(), prop=None, quiet=False, harmless=False):
         shutil.rmtree(wd, ignore_errors=True)
         if mu.get("engine", "verus") == "verus":
             os.makedirs(wd)
-            sh("mkdir -p %s/crates/core && cp -r /repo/crates/core/src %s/crates/core/" % (wd, wd))
+            sh("mkdir -p %s/crates/core %s/crates/backend && cp -r /repo/crates/core/src %s/crates/core/ && cp -r /repo/crates/backend/src %s/crates/backend/" % (wd, wd, wd, wd))
         else:
             sh("git -C /repo worktree add --detach %s HEAD" % wd)
         f = os.path.join(wd, mu["file"])
